@@ -60,9 +60,10 @@ func copyFile(src, dst string) {
 var worldSeq int
 
 type world struct {
-	db   walletdb.DB
-	w    *wallet.Wallet
-	path string
+	db      walletdb.DB
+	w       *wallet.Wallet
+	path    string
+	renames int // (only touched by the thread the scheduler runs)
 }
 
 var (
@@ -294,6 +295,11 @@ var ops = map[string]func(x *world, r *result){
 			r.intl = []string{extAddr(tx.Tx.TxOut[tx.ChangeIndex].PkScript)}
 		}
 	},
+	"RenameAccount": func(x *world, r *result) {
+		// issues nothing; rewrites the account row (and must not write back stale indexes)
+		x.renames++
+		r.err, r.commits = x.w.RenameAccount(scope, 0, fmt.Sprintf("renamed-%d", x.renames)), true
+	},
 	"TxDryRun": func(x *world, r *result) {
 		out := wire.NewTxOut(5e6, payTo)
 		tx, err := x.w.VerifTxToOutputs([]*wire.TxOut{out}, nil, &scope, 0, 1, 1000, wallet.CoinSelectionLargest, true, nil)
@@ -403,7 +409,7 @@ func main() {
 	}
 	dir := ev.Scratch()
 	tmpl := makeTemplate(dir)
-	names := []string{"NewAddress", "NewChangeAddress", "CurrentAddress", "TxWithChange", "TxDryRun", "FundPsbtPreset", "TxNilChangeScope", "NewChangeAddress86", "TxFromImported"}
+	names := []string{"NewAddress", "NewChangeAddress", "CurrentAddress", "TxWithChange", "TxDryRun", "FundPsbtPreset", "TxNilChangeScope", "NewChangeAddress86", "TxFromImported", "RenameAccount"}
 	var scenarios []scenario
 	for i, a := range names {
 		for _, b := range names[i:] {
@@ -545,7 +551,7 @@ func main() {
 	})
 }
 
-const c09Rule = "for every pair (thorough: + selected triples) of address-issuing calls {NewAddress, NewChangeAddress, CurrentAddress, txToOutputs with change (account 0 / nil change scope / imported account), txToOutputs dry run, FundPsbt with pre-set input, NewChangeAddress of scope 86} on the same account, every schedule with at most the stated number of preemptions (CHESS iteration 0,1,2,..) is executed on a fresh copy of a funded wallet; oracle: the returned addresses are linearizable w.r.t. a per-branch counter model (implies pairwise distinct fresh addresses and a gap-free range), key counts of the live manager = model = a manager freshly opened on the file; no call fails, no deadlock, no panic; states = distinct (scenario, outcome) pairs, non-trivial = outcomes in which at least two calls succeeded"
+const c09Rule = "for every pair (thorough: + selected triples) of address-issuing calls {NewAddress, NewChangeAddress, CurrentAddress, txToOutputs with change (account 0 / nil change scope / imported account), txToOutputs dry run, FundPsbt with pre-set input, NewChangeAddress of scope 86, RenameAccount (issues nothing, rewrites the account row)} on the same account, every schedule with at most the stated number of preemptions (CHESS iteration 0,1,2,..) is executed on a fresh copy of a funded wallet; oracle: the returned addresses are linearizable w.r.t. a per-branch counter model (implies pairwise distinct fresh addresses and a gap-free range), key counts of the live manager = model = a manager freshly opened on the file; no call fails, no deadlock, no panic; states = distinct (scenario, outcome) pairs, non-trivial = outcomes in which at least two calls succeeded"
 
 var c09Assumptions = []string{
 	"scheduling points are the mutex/rwmutex acquisitions of wallet, waddrmgr (sync import rewritten by an overlay generated from the current tree) and bbolt (local copy with the same one-line rewrite); code between two acquisitions runs atomically",
@@ -624,6 +630,8 @@ func checkExec(run *ev.Run, sc scenario, x *vsync.Exec, w *world, results []*res
 			ok := one(r.intl) == get(intPlan, m.i)
 			m.i++
 			return m, ok
+		case "RenameAccount":
+			return m, len(r.ext)+len(r.intl)+len(r.intl86) == 0
 		case "TxDryRun":
 			return m, one(r.intl) == get(intPlan, m.i)
 		case "TxNilChangeScope", "NewChangeAddress86":
